@@ -476,64 +476,78 @@ def cancel_sweep(prog: dict, rng, nbase: int):
 # reporting
 # ------------------------------------------------------------------------------------------------------
 
-def still_fails(case, sig_kind):
+def still_fails(case, want):
+    """same kind and same signature of finding"""
     try:
         an, answers = run_case(case)
     except HarnessError:
         return False
     v = verdict(an, answers)
-    return v is not None and v[0] == sig_kind
+    return v is not None and v[:2] == want
 
 
-def shrink(case: dict, kind: str) -> dict:
-    """remove tasks, then steps, then schedule entries / cancels while the same kind of finding remains"""
+def _step_lists(case: dict):
+    """paths to every step list of a case: task programs and section bodies at any depth"""
+    def walk(steps, path):
+        yield path
+        for i, st in enumerate(steps):
+            if st[0] == "lock":
+                yield from walk(st[1].get("body", []), path + [i])
+    for ti, prog in enumerate(case["tasks"]):
+        yield from walk(prog, [ti])
+
+
+def _get_list(case, path):
+    steps = case["tasks"][path[0]]
+    for i in path[1:]:
+        steps = steps[i][1]["body"]
+    return steps
+
+
+def _with_list(case, path, new):
+    c = json.loads(json.dumps(case))
+    if len(path) == 1:
+        c["tasks"][path[0]] = new
+    else:
+        steps = c["tasks"][path[0]]
+        for i in path[1:-1]:
+            steps = steps[i][1]["body"]
+        steps[path[-1]][1]["body"] = new
+    return c
+
+
+def shrink(case: dict, want: tuple) -> dict:
+    """remove tasks, steps (at any nesting depth), cancels and schedule entries, and simplify the configuration,
+    while the same finding (kind, signature) remains"""
     cur = json.loads(json.dumps(case))
-
-    def with_tasks(ts):
-        c = dict(cur, tasks=ts)
-        if "starts" in c:
-            c["starts"] = (c["starts"] + [0] * len(ts))[:len(ts)]
-        return c
-
-    # whole tasks (keep indices stable for cancels: replace by empty program)
-    for i in range(len(cur["tasks"])):
-        if not cur["tasks"][i]:
-            continue
-        trial = with_tasks([t if j != i else [] for j, t in enumerate(cur["tasks"])])
-        if still_fails(trial, kind):
-            cur = trial
-    # steps of each task / bodies (one level)
-    for i in range(len(cur["tasks"])):
-        steps = cur["tasks"][i]
-        if len(steps) > 1:
-            small = ddmin(steps, lambda s: still_fails(with_tasks([s if j == i else t for j, t in enumerate(cur["tasks"])]), kind))
-            cur = with_tasks([small if j == i else t for j, t in enumerate(cur["tasks"])])
-        for si, st in enumerate(cur["tasks"][i]):
-            if st[0] == "lock" and len(st[1].get("body", [])) > 0:
-                def tryb(body, i=i, si=si):
-                    ts = json.loads(json.dumps(cur["tasks"]))
-                    ts[i][si][1]["body"] = body
-                    return still_fails(with_tasks(ts), kind)
-                body = st[1]["body"]
-                if tryb([]):
-                    body = []
-                elif len(body) > 1:
-                    body = ddmin(body, tryb)
-                ts = json.loads(json.dumps(cur["tasks"]))
-                ts[i][si][1]["body"] = body
-                cur = with_tasks(ts)
-    if cur.get("cancels"):
-        for c in list(cur["cancels"]):
-            trial = dict(cur, cancels=[x for x in cur["cancels"] if x is not c])
-            if still_fails(trial, kind):
-                cur = trial
-    if cur.get("schedule"):
-        if still_fails(dict(cur, schedule=[]), kind):
-            cur = dict(cur, schedule=[])
-        elif len(cur["schedule"]) > 1:
-            cur = dict(cur, schedule=ddmin(cur["schedule"], lambda s: still_fails(dict(cur, schedule=s), kind)))
-    if cur["cfg"] != "raw" and still_fails(dict(cur, cfg="raw"), kind):
-        cur = dict(cur, cfg="raw")
+    for _ in range(3):
+        before = canonical(cur)
+        for path in list(_step_lists(cur)):
+            try:
+                steps = _get_list(cur, path)
+            except (IndexError, KeyError):
+                continue            # an enclosing list was shrunk in the meantime
+            if not steps:
+                continue
+            if still_fails(_with_list(cur, path, []), want):
+                cur = _with_list(cur, path, [])
+            elif len(steps) > 1:
+                small = ddmin(steps, lambda s, path=path: still_fails(_with_list(cur, path, s), want))
+                cur = _with_list(cur, path, small)
+        if cur.get("cancels"):
+            for c in list(cur["cancels"]):
+                trial = dict(cur, cancels=[x for x in cur["cancels"] if x != c])
+                if still_fails(trial, want):
+                    cur = trial
+        if cur.get("schedule"):
+            if still_fails(dict(cur, schedule=[]), want):
+                cur = dict(cur, schedule=[])
+            elif len(cur["schedule"]) > 1:
+                cur = dict(cur, schedule=ddmin(cur["schedule"], lambda s: still_fails(dict(cur, schedule=s), want)))
+        if cur["cfg"] != "raw" and still_fails(dict(cur, cfg="raw"), want):
+            cur = dict(cur, cfg="raw")
+        if canonical(cur) == before:
+            break
     return cur
 
 
@@ -544,7 +558,7 @@ def show_trace(an: Analysis, answers) -> list[dict]:
 
 def report(chk: Check, case: dict, origin: str, v):
     kind, sig, what = v
-    small = shrink(case, kind)
+    small = shrink(case, (kind, sig))
     an, answers = run_case(small)
     v2 = verdict(an, answers) or v
     # determinism: the shrunk case must give the same verdict twice
@@ -623,12 +637,14 @@ def run(chk: Check) -> int:
 
     ncorpus = 0
     for name, case in corpus_cases():
+        if found >= 3:
+            break
         an, answers = run_case(case)
         ncorpus += 1
         account(case, an)
         consider(case, an, answers, "corpus:" + name)
     # exhaustive schedule enumeration of the small programs
-    for name, prog in EXHAUSTIVE:
+    for name, prog in (EXHAUSTIVE if chk.thorough else EXHAUSTIVE[:5]):
         if found >= 3:
             break
         count = 0
@@ -662,6 +678,7 @@ def run(chk: Check) -> int:
         chk.proof_broken(proof, found_property)
     chk.coverage.update({
         "evaluations": evaluations,
+        "traces_validated_against_impl": evaluations,
         "distinct_nontrivial": len(distinct),
         "rule": "a case = 2-4 scripted tasks (sections via Cache.lock / @cache.locked coroutine / @cache.locked async "
                 "generator / Memory.lock / decorators.locked(backend); ttl in {2,4,8,16 ticks, none}; wait in {True,False}; "
